@@ -61,7 +61,7 @@ Print Assumptions C18_commit_is_function_of_parents.
 Theorem C18_oracle_accepts_model :
   forall i : input,
     wf_histb (hist_of i) = true ->
-    rank_okb (length (hist_of i)) (map N.to_nat (snd i)) = true ->
+    rank_okb (length (hist_of i)) (ranks_of i) = true ->
     oracle i (model_obs i) = true.
 Proof. exact oracle_accepts_model. Qed.
 Print Assumptions C18_oracle_accepts_model.
